@@ -55,17 +55,31 @@ def diff_trees(t0, t1):
 
 
 EXTRA = ["--read_group", "read_id:_", "--count_exons", "--check_canonical", "--sqanti_output"]
+# option configurations: (name, uses the annotation, data type, extra options)
+CONFIGS = [
+    ("annotated", True, "nanopore", EXTRA),
+    ("denovo", False, "nanopore", ["--read_group", "read_id:_", "--check_canonical"]),
+    ("pacbio-all", True, "pacbio_ccs", ["--transcript_quantification", "all", "--gene_quantification", "all", "--report_novel_unspliced", "true",
+                                        "--model_construction_strategy", "sensitive_pacbio", "--count_exons", "--read_group", "read_id:_"]),
+]
+
+
+def argv_for(cfg, paths, out, threads=1, more=()):
+    from vlib import run
+    name, genedb, dt, extra = CONFIGS[cfg]
+    return run.base_argv(paths, out, data_type=dt, threads=threads, genedb=genedb, extra=list(extra) + list(more))
 
 
 def base_and_variants(args):
-    n_chr, variants, scratch, wid = args
+    n_chr, variants, scratch, wid = args[:4]
+    cfg = args[4] if len(args) > 4 else 0
     from vlib import syn, run, vpool
     w = world(n_chr)
-    d = os.path.join(scratch, "c06_%d_%d" % (n_chr, wid))
+    d = os.path.join(scratch, "c06_%d_%d_%d" % (n_chr, wid, cfg))
     shutil.rmtree(d, ignore_errors=True)
     paths = syn.materialise(w, d)
     base_out = os.path.join(d, "base")
-    rc = run.run_isoquant(run.base_argv(paths, base_out, extra=EXTRA), paths["home"], os.path.join(d, "base.txt"))
+    rc = run.run_isoquant(argv_for(cfg, paths, base_out), paths["home"], os.path.join(d, "base.txt"))
     if rc != 0:
         return [("base", [("run", "base run failed rc=%d %s" % (rc, open(os.path.join(d, "base.txt")).read()[-300:]))])], 1
     t0 = run.read_tree(os.path.join(base_out, "OUT"))
@@ -75,7 +89,7 @@ def base_and_variants(args):
         kind = v[0]
         out = os.path.join(d, "v")
         shutil.rmtree(out, ignore_errors=True)
-        extra = list(EXTRA)
+        extra = []
         hook = None
         threads = 1
         if kind == "sched":
@@ -99,7 +113,7 @@ def base_and_variants(args):
                     rank = {x: i for i, x in enumerate(order)}
                     return a, b, sorted(g, key=lambda x: (rank.get(x, len(rank)), x))
                 DP.DatasetProcessor.load_read_info = patched
-        rc = run.run_isoquant(run.base_argv(paths, out, threads=threads, extra=extra), paths["home"], os.path.join(d, "v.txt"), pre_hook=hook)
+        rc = run.run_isoquant(argv_for(cfg, paths, out, threads=threads, more=extra), paths["home"], os.path.join(d, "v.txt"), pre_hook=hook)
         n += 1
         if rc != 0:
             res.append((v, [("run", "exit %d: %s" % (rc, open(os.path.join(d, "v.txt")).read()[-300:]))]))
@@ -113,14 +127,15 @@ def base_and_variants(args):
 
 
 def plain_tree(args):
-    n_chr, scratch, wid = args
+    n_chr, scratch, wid = args[:3]
+    cfg = args[3] if len(args) > 3 else 0
     from vlib import syn, run
     w = world(n_chr)
-    d = os.path.join(scratch, "c06_plain_%d" % wid)
+    d = os.path.join(scratch, "c06_plain_%d_%d" % (wid, cfg))
     shutil.rmtree(d, ignore_errors=True)
     paths = syn.materialise(w, d)
     out = os.path.join(d, "out")
-    rc = run.run_isoquant(run.base_argv(paths, out, extra=EXTRA), paths["home"], os.path.join(d, "o.txt"))
+    rc = run.run_isoquant(argv_for(cfg, paths, out), paths["home"], os.path.join(d, "o.txt"))
     t = run.read_tree(os.path.join(out, "OUT")) if rc == 0 else None
     shutil.rmtree(d, ignore_errors=True)
     return t
@@ -129,13 +144,14 @@ def plain_tree(args):
 def permset_worker(args):
     """one PERMSET job in a fresh harness worker: kind 'record' (baseline with sorted orders, returns choice points + tree)
        or 'deviate' (one content gets another iteration order, returns tree diff against the given baseline)"""
-    n_chr, kind, payload, scratch, wid = args
+    n_chr, kind, payload, scratch, wid = args[:5]
+    cfg = args[5] if len(args) > 5 else 0
     import json
     from vlib import syn, run, permset
     if not any(isinstance(f, permset._Finder) for f in sys.meta_path):
         permset.install(core.REPO)
     w = world(n_chr)
-    d = os.path.join(scratch, "c06_perm_%d" % wid)
+    d = os.path.join(scratch, "c06_perm_%d_%d" % (wid, cfg))
     shutil.rmtree(d, ignore_errors=True)
     paths = syn.materialise(w, d)
     out = os.path.join(d, "out")
@@ -147,7 +163,7 @@ def permset_worker(args):
         def post(code):
             with open(rec_file, "w") as f:
                 json.dump(permset.Controller.record, f)
-        rc = run.run_isoquant(run.base_argv(paths, out, extra=EXTRA), paths["home"], os.path.join(d, "o.txt"), pre_hook=pre, post_hook=post)
+        rc = run.run_isoquant(argv_for(cfg, paths, out), paths["home"], os.path.join(d, "o.txt"), pre_hook=pre, post_hook=post)
         if rc != 0:
             msg = open(os.path.join(d, "o.txt")).read()[-400:]
             shutil.rmtree(d, ignore_errors=True)
@@ -158,27 +174,28 @@ def permset_worker(args):
         return "record", tree, choices, None
     results = []
     t0 = payload["tree"]
-    for key, perm in payload["devs"]:
+    for dev in payload["devs"]:
         shutil.rmtree(out, ignore_errors=True)
 
-        def pre(key=key, perm=perm):
-            permset.Controller.deviation = (key, tuple(perm))
-        rc = run.run_isoquant(run.base_argv(paths, out, extra=EXTRA), paths["home"], os.path.join(d, "o.txt"), pre_hook=pre)
+        def pre(dev=dev):
+            permset.Controller.deviation = {k: tuple(pm) for k, pm in dev}
+        rc = run.run_isoquant(argv_for(cfg, paths, out), paths["home"], os.path.join(d, "o.txt"), pre_hook=pre)
         if rc != 0:
-            results.append((key, perm, [("run", "exit %d: %s" % (rc, open(os.path.join(d, "o.txt")).read()[-300:]))]))
+            results.append((dev, [("run", "exit %d: %s" % (rc, open(os.path.join(d, "o.txt")).read()[-300:]))]))
             continue
         df = diff_trees(t0, run.read_tree(os.path.join(out, "OUT")))
         if df:
-            results.append((key, perm, df))
+            results.append((dev, df))
     shutil.rmtree(d, ignore_errors=True)
     return "deviate", results, len(payload["devs"]), None
 
 
 def seed_sweep(args):
-    n_chr, seeds, scratch, wid = args
+    n_chr, seeds, scratch, wid = args[:4]
+    cfg = args[4] if len(args) > 4 else 0
     from vlib import syn, run
     w = world(n_chr)
-    d = os.path.join(scratch, "c06_seed_%d" % wid)
+    d = os.path.join(scratch, "c06_seed_%d_%d" % (wid, cfg))
     shutil.rmtree(d, ignore_errors=True)
     paths = syn.materialise(w, d)
     trees = {}
@@ -186,7 +203,7 @@ def seed_sweep(args):
     for seed in seeds:
         out = os.path.join(d, "s%d" % seed)
         env = dict(os.environ, PYTHONHASHSEED=str(seed), HOME=paths["home"])
-        argv = ["/venv/bin/python", "-W", "ignore", os.path.join(core.REPO, "isoquant.py")] + run.base_argv(paths, out, threads=2 if seed % 2 else 1, extra=EXTRA)
+        argv = ["/venv/bin/python", "-W", "ignore", os.path.join(core.REPO, "isoquant.py")] + argv_for(cfg, paths, out, threads=2 if seed % 2 else 1)
         r = subprocess.run(argv, env=env, capture_output=True, text=True, cwd=d)
         if r.returncode != 0:
             errs.append((seed, [("run", "exit %d: %s" % (r.returncode, (r.stdout + r.stderr)[-300:]))]))
@@ -197,50 +214,52 @@ def seed_sweep(args):
     return trees, errs
 
 
-def run(ctx):
-    quick = ctx.tier == "quick"
-    from vlib import vpool
-    n_chr = 3 if quick else 4
+def explore_config(ctx, cfg, n_chr, quick, tot):
+    from vlib import vpool, permset
+    cname = CONFIGS[cfg][0]
+    tag = "" if cfg == 0 else cname + ":"
     parts = vpool.set_partitions(n_chr)
     variants = [("sched", p1, p2) for p1 in parts for p2 in parts]
     modes = [("mode", ("--high_memory",), 1), ("mode", ("--keep_tmp",), 1), ("mode", ("--high_memory", "--keep_tmp"), 1), ("mode", (), 1),
-             ("mode", ("--high_memory",), 4), ("mode", (), 2), ("mode", ("--no_gzip",), 1)]
-    modes = [m for m in modes if m[1] != ("--no_gzip",)]
+             ("mode", ("--high_memory",), 4), ("mode", (), 2)]
     groups = ["gA", "gB", "gC", "NA"]
     gorders = [("grouporder", o) for o in itertools.permutations(groups)]
     if quick:
         gorders = gorders[::5]
+    if cfg != 0 and quick:
+        variants = [v for v in variants if len(v[1]) != len(v[2]) or len(v[1]) in (1, n_chr)]
+        modes = modes[:1] + modes[4:]
+        gorders = gorders[:2]
     allv = variants + modes + gorders
     ctx.rng.shuffle(allv)
-    chunks = core.chunks(allv, core.NCPU)
     nruns = 0
-    nviol = 0
-    for res, n in core.pmap(base_and_variants, [(n_chr, c, ctx.scratch, i) for i, c in enumerate(chunks)]):
+    for res, n in core.pmap(base_and_variants, [(n_chr, c, ctx.scratch, i, cfg) for i, c in enumerate(core.chunks(allv, core.NCPU))]):
         nruns += n
         for v, df in res:
             for fname, what in df[:3]:
                 kind = v[0] if v != "base" else "base"
-                key = "%s:%s" % (kind, fname.split("OUT.")[-1])
-                ctx.violation(key, "variant %s: file %s differs from the threads=1 base run: %s" % (v, fname, what), {"variant": v, "n_chr": n_chr})
-    ctx.note("%d chromosomes: %d worker schedules (all partitions stage1 x stage2), %d mode variants, %d group orders; %d runs" %
-             (n_chr, len(variants), len(modes), len(gorders), nruns))
+                key = "%s%s:%s" % (tag, kind, fname.split("OUT.")[-1])
+                ctx.violation(key, "[%s] variant %s: file %s differs from the threads=1 base run: %s" % (cname, v, fname, what),
+                              {"variant": v, "n_chr": n_chr, "cfg": cfg})
+    ctx.note("[%s] %d chromosomes: %d worker schedules (partitions stage1 x stage2), %d mode variants, %d group orders; %d runs" %
+             (cname, n_chr, len(variants), len(modes), len(gorders), nruns))
     # ---- PERMSET: every iterated set whose order depends on the hash seed is a choice point; explore all single deviations
-    from vlib import permset
-    kind, tree_sorted, choices, err = core.pmap(permset_worker, [(n_chr, "record", None, ctx.scratch, 0), (n_chr, "record", None, ctx.scratch, 1)], jobs=2)[0]
+    kind, tree_sorted, choices, err = core.pmap(permset_worker, [(n_chr, "record", None, ctx.scratch, 0, cfg), (n_chr, "record", None, ctx.scratch, 1, cfg)], jobs=2)[0]
     nperm = 0
     ncp = 0
     if err:
-        ctx.violation("permset:baseline-failed", err, {})
+        ctx.violation(tag + "permset:baseline-failed", err, {})
     else:
         # soundness of the rewrite: with sorted set orders the outputs must equal those of the unmodified interpreter
-        plain = core.pmap(plain_tree, [(n_chr, ctx.scratch, 9000), (n_chr, ctx.scratch, 9001)], jobs=2)[0]
+        plain = core.pmap(plain_tree, [(n_chr, ctx.scratch, 9000, cfg), (n_chr, ctx.scratch, 9001, cfg)], jobs=2)[0]
         if plain is None:
-            ctx.violation("permset:plain-run-failed", "plain base run failed", {})
+            ctx.violation(tag + "permset:plain-run-failed", "plain base run failed", {})
         else:
             for fname, what in diff_trees(plain, tree_sorted)[:3]:
-                ctx.violation("setorder-sorted:%s" % fname.split("OUT.")[-1], "with every hash-dependent set iterated in sorted order %s differs "
-                              "from the run on the unmodified interpreter (PYTHONHASHSEED=0): %s" % (fname, what), {"file": fname})
+                ctx.violation("%ssetorder-sorted:%s" % (tag, fname.split("OUT.")[-1]), "[%s] with every hash-dependent set iterated in sorted order %s "
+                              "differs from the run on the unmodified interpreter (PYTHONHASHSEED=0): %s" % (cname, fname, what), {"file": fname})
         devs = []
+        sizes = {}
         for key, cnt in sorted(choices.items()):
             n = key.count(", ") + 1 if key != "[]" else 0
             try:
@@ -250,50 +269,88 @@ def run(ctx):
             if n < 2:
                 continue
             ncp += 1
+            sizes[key] = n
             for perm in permset.deviations_for(key, n):
-                devs.append((key, perm))
+                devs.append(((key, perm),))
+        if not quick:
+            # pairs of deviations (d = 2): the reversal of one set combined with the reversal of another
+            keys = sorted(sizes)
+            for a in range(len(keys)):
+                for b in range(a + 1, len(keys)):
+                    devs.append(((keys[a], tuple(reversed(range(sizes[keys[a]])))), (keys[b], tuple(reversed(range(sizes[keys[b]]))))))
         ctx.rng.shuffle(devs)
         payloads = [{"tree": tree_sorted, "devs": c} for c in core.chunks(devs, core.NCPU)]
-        for kind, results, n, e in core.pmap(permset_worker, [(n_chr, "deviate", p, ctx.scratch, 100 + i) for i, p in enumerate(payloads)]):
+        for kind, results, n, e in core.pmap(permset_worker, [(n_chr, "deviate", p, ctx.scratch, 100 + i, cfg) for i, p in enumerate(payloads)]):
             nperm += n or 0
-            for key, perm, df in results or []:
+            for dev, df in results or []:
                 for fname, what in df[:2]:
-                    ctx.violation("setorder:%s" % fname.split("OUT.")[-1],
-                                  "iteration order %s of the set %s changes %s: %s" % (list(perm), key[:120], fname, what),
-                                  {"set": key, "perm": list(perm)})
-    ctx.note("PERMSET: %d hash-order-dependent sets iterated (choice points), %d single-deviation runs" % (ncp, nperm))
+                    ctx.violation("%ssetorder:%s" % (tag, fname.split("OUT.")[-1]),
+                                  "[%s] iteration order(s) %s change %s: %s" % (cname, "; ".join("%s of the set %s" % (list(pm), k[:100]) for k, pm in dev), fname, what),
+                                  {"cfg": cfg, "n_chr": n_chr, "setorder": [[k, list(pm)] for k, pm in dev]})
+    ctx.note("[%s] PERMSET: %d hash-order-dependent sets iterated (choice points), %d deviation runs%s" %
+             (cname, ncp, nperm, "" if quick else " (all single deviations + all pairs of reversals)"))
     # hash-seed sweep through the real CLI (fresh interpreters)
-    seeds = list(range(0, 8 if quick else 48))
+    seeds = list(range(0, (8 if cfg == 0 else 4) if quick else 48))
     trees = {}
-    for t, errs in core.pmap(seed_sweep, [(n_chr, c, ctx.scratch, i) for i, c in enumerate(core.chunks(seeds, core.NCPU))]):
+    for t, errs in core.pmap(seed_sweep, [(n_chr, c, ctx.scratch, i, cfg) for i, c in enumerate(core.chunks(seeds, core.NCPU))]):
         trees.update(t)
         for seed, df in errs:
-            ctx.violation("hashseed:run-failed", "PYTHONHASHSEED=%d: %s" % (seed, df[0][1]), {"seed": seed})
+            ctx.violation(tag + "hashseed:run-failed", "[%s] PYTHONHASHSEED=%d: %s" % (cname, seed, df[0][1]), {"seed": seed})
     if trees:
         s0 = min(trees)
         for seed in sorted(trees):
             df = diff_trees(trees[s0], trees[seed])
             for fname, what in df[:3]:
-                ctx.violation("hashseed:%s" % fname.split("OUT.")[-1], "PYTHONHASHSEED=%d vs %d: %s differs: %s" % (seed, s0, fname, what), {"seeds": [s0, seed]})
-    ctx.note("hash-seed sweep through the real CLI: %d seeds (supporting evidence, not an enumeration)" % len(trees))
+                ctx.violation("%shashseed:%s" % (tag, fname.split("OUT.")[-1]), "[%s] PYTHONHASHSEED=%d vs %d: %s differs: %s" % (cname, seed, s0, fname, what),
+                              {"seeds": [s0, seed]})
+    ctx.note("[%s] hash-seed sweep through the real CLI: %d seeds (supporting evidence, not an enumeration)" % (cname, len(trees)))
+    tot["states"] += len(variants) + len(modes) + len(gorders)
+    tot["runs"] += nruns
+    tot["seeds"] += len(trees)
+    tot["schedules"] += len(variants)
+    tot["modes"] += len(modes)
+    tot["gorders"] += len(gorders)
+    tot["ncp"] += ncp
+    tot["nperm"] += nperm
+    tot["parts"] = parts
+
+
+def run(ctx):
+    quick = ctx.tier == "quick"
+    n_chr = 3 if quick else 4
+    tot = dict(states=0, runs=0, seeds=0, schedules=0, modes=0, gorders=0, ncp=0, nperm=0)
+    cfgs = [0, 1] if quick else [0, 1, 2]
+    for cfg in cfgs:
+        explore_config(ctx, cfg, n_chr, quick, tot)
+    parts = tot["parts"]
     ctx.coverage.update({
-        "states": len(parts) * len(parts) + len(modes) + len(gorders), "transitions": nruns, "traces_validated_against_impl": nruns + len(trees),
-        "schedules": len(variants), "n_chromosomes": n_chr, "mode_variants": len(modes), "group_orders": len(gorders),
-        "hash_seeds_sampled": len(trees), "exhaustive": True, "set_order_choice_points": ncp, "set_order_deviation_runs": nperm,
+        "states": tot["states"], "transitions": tot["runs"] + tot["nperm"], "traces_validated_against_impl": tot["runs"] + tot["seeds"] + tot["nperm"],
+        "schedules": tot["schedules"], "n_chromosomes": n_chr, "mode_variants": tot["modes"], "group_orders": tot["gorders"],
+        "option_configurations": [CONFIGS[c][0] for c in cfgs],
+        "hash_seeds_sampled": tot["seeds"], "exhaustive": True, "set_order_choice_points": tot["ncp"], "set_order_deviation_runs": tot["nperm"],
         "samples": [{"stage1_partition": parts[-1], "stage2_partition": parts[1]}],
-        "evaluations": nruns + len(trees), "distinct_nontrivial": len(variants),
+        "evaluations": tot["runs"] + tot["seeds"] + tot["nperm"], "distinct_nontrivial": tot["schedules"] + tot["nperm"],
         "rule": "state = (stage-1 partition, stage-2 partition) of chromosome tasks to workers; every partition of %d tasks is enumerated for "
-                "both stages; each schedule is one complete pipeline execution under the virtual pool" % n_chr,
+                "both stages; each schedule is one complete pipeline execution under the virtual pool; set orders: every hash-order-dependent "
+                "set iterated during the run is a choice point, all single deviations%s" % (n_chr, "" if quick else " and all pairs of reversals"),
     })
     ctx.assumptions += [
         "worker processes share no memory and write disjoint per-chromosome files, so running the blocks of a partition one after another "
         "is equivalent to running them concurrently",
-        "set iteration order is owned only at the read-group seam; other str-hashed sets are covered by the PYTHONHASHSEED sweep, which is "
-        "sampling and decides nothing on its own",
+        "set iteration orders are explored up to one deviation per run (thorough: plus pairs of reversals); sets created inside third-party "
+        "libraries are not rewritten; the PYTHONHASHSEED sweep is sampling and decides nothing on its own",
     ]
 
 
 def replay(ctx, case):
+    cfg = case.get("cfg", 0)
+    if "setorder" in case:
+        rec = permset_worker((case.get("n_chr", 3), "record", None, ctx.scratch, 990, cfg))
+        if rec[3]:
+            return rec[3]
+        dev = tuple((k, tuple(pm)) for k, pm in case["setorder"])
+        kind, results, n, e = permset_worker((case.get("n_chr", 3), "deviate", {"tree": rec[1], "devs": [dev]}, ctx.scratch, 991, cfg))
+        return str(results[0][1][0]) if results else None
     v = case["variant"]
-    res, n = base_and_variants((case.get("n_chr", 3), [tuple(v) if v[0] != "sched" else ("sched", v[1], v[2])], ctx.scratch, 999))
+    res, n = base_and_variants((case.get("n_chr", 3), [tuple(v) if v[0] != "sched" else ("sched", v[1], v[2])], ctx.scratch, 999, cfg))
     return str(res[0][1][0]) if res else None
